@@ -33,6 +33,7 @@ ASSUMPTIONS = [
     "slack 1e-8 x ||.||^2 on monotonicity, 1e-6 x tr K~ on the optimum",
 ]
 RULE = RULE + " " + pc._routes_rule() + " One case in 40 adds a table of more than 4096 rows (the data stacked r times against the data times sqrt r)."
+RULE = RULE + " " + 'One case in 5 adds fits at mixing 1 - 2^-18 and 1 - 2^-21 on a designed, well-conditioned table with exactly tied 2nd / 3rd principal directions and a target along the 3rd (objective tolerance 1e-9).'
 GRID = np.linspace(0.0, 1.0, 9)
 
 
